@@ -125,12 +125,55 @@ type EmbAliasElems struct {
 	EaePair [2]AliasElem `dials:"eae_pair" dialsalias:"eae_pair_old"`
 }
 
+// IfaceImpl is the struct behind the pointer default of an interface-typed
+// field: members of every kind the flag sources register.
+type IfaceImpl struct {
+	Host string
+	Port int
+	On   bool
+	Rate float64
+	Wait time.Duration
+	Tags []string
+	Nums []int32
+	C    complex128
+	Col  shape.Color
+	When time.Time
+	M    map[string]string
+	Lvl  shape.Level
+	In   struct {
+		X int
+		Y []string
+	}
+	P *int
+	V FVLevel
+}
+
+func (i *IfaceImpl) String() string { return i.Host }
+
+// IfaceScalars is the struct stored BY VALUE in an interface-typed field: a
+// value in an interface is not addressable, so it only has members whose flag
+// registration does not take their address.
+type IfaceScalars struct {
+	Host string
+	Port int
+	On   bool
+	Rate float64
+	Wait time.Duration
+	Lvl  shape.Level
+	In   struct{ X int }
+	P    *int
+}
+
+func (i IfaceScalars) String() string { return i.Host }
+
 // Handle is a named uintptr (a kind the flag sources and the decoders accept
 // and the string-casting path does not).
 type Handle uintptr
 
 func init() {
 	shape.RegisterBase("Handle", reflect.TypeOf(Handle(0)))
+	shape.RegisterBase("any", reflect.TypeOf((*interface{})(nil)).Elem())
+	shape.RegisterBase("Stringer", reflect.TypeOf((*fmt.Stringer)(nil)).Elem())
 	shape.RegisterBase("AliasElem", reflect.TypeOf(AliasElem{}))
 	shape.RegisterBase("EmbAliasElems", reflect.TypeOf(EmbAliasElems{}))
 	shape.RegisterBase("map[uintptr]string", reflect.TypeOf(map[uintptr]string(nil)))
